@@ -132,6 +132,10 @@ func (x *pathCtx) reMatch(n *nativeRe, b []value) value {
 	if s, ok := mkStr(b).(string); ok {
 		return n.re.MatchString(s)
 	}
+	return x.reMatchSym(n, b)
+}
+
+func (x *pathCtx) reMatchSym(n *nativeRe, b []value) value {
 	tt := x.tt
 	eq := func(i int, c byte) *Term { return tt.Eq(x.lift(b[i]), tt.BV(8, uint64(c))) }
 	exists := func(cs ...byte) *Term {
